@@ -115,6 +115,15 @@ def oracle(ctx, trig, n_docs, per_rule={}):
                 raw = gen.fill(ctx.rng, ctx.rng.choice(qt)) if ctx.rng.random() < 0.6 else "".join(ctx.rng.choice(["> ", ">", "> > ", "- > ", ">\t"]) + ctx.rng.choice(["text", "```", "~~~", "", "    code", "- item", "<pre>", "<?php", "# h", "***", "a | b", "", ""]) + "\n" for _ in range(ctx.rng.randint(1, 7)))
                 if ctx.rng.random() < 0.5:
                     raw += ctx.rng.choice([">\n", ">\n>\n", "\n", ">\n\nafter\n", "> \n>  \n"])
+                else:
+                    # what stands directly around the quote, without blank lines: a paragraph in front of it, and behind it every kind of line that ends
+                    # a quote -- including list markers that may NOT interrupt a paragraph ("2. two", an empty bullet): the block that ends the quote is
+                    # parsed during extraction, by the core parser and by the plugin's copy of it
+                    if ctx.rng.random() < 0.6:
+                        raw = ctx.rng.choice(["intro\n", "intro words\nmore\n", "- item\n", "# h\n"]) + raw
+                    raw += ctx.rng.choice(["2. two", "7) seven", "-", "+", "*", "1. one", "- item", "    code", "===", "---", "text", "[x]: /u", "<div>", "```\ncode\n```", "# h", "10. ten\n11. eleven", "* * *", "-   \n- b"]) + "\n"
+                    if ctx.rng.random() < 0.5:
+                        raw += ctx.rng.choice(["tail\n", "\ntail\n", "> again\n"])
             doc = strip_chars(raw, chars)
         if P == "rst":
             doc = doc.replace("..", "")
